@@ -148,7 +148,13 @@ Print Assumptions C20_modup_sound.
    (mpc_sub into a wp-bit copy) and starts from verrors = 0, so that rounding is NOT covered by the
    returned bound (for n = 1 the bound returned is 0) -- harmless for moderate entries, where the
    difference is exact in the >= wp+64 bits an mpf carries.  That the model error vector is the one the
-   code computes is checked numerically by checks/C20.py (agreement to 1e-6 on every m call). *)
+   code computes is checked numerically by checks/C20.py (agreement to 1e-6 on every m call).
+   Precisions: the inputs Hl, s are exact ring elements (whatever precision they are stored at); the
+   WORKING precision is the one of the operations in M, and eps is the unit the error vector is built
+   with (2^(1-wp), wp = the output's precision).  The hypotheses em <= eps, es <= eps (1 - es) say
+   that the working copy must be at least as precise as eps claims: allocating the working matrix at the
+   (lower) precision of the input while keeping eps = 2^(1-wp_output) falsifies them, and the check calls
+   the m variants with matrix / shift / output at different precisions to notice exactly that. *)
 Theorem C20_mhess_error_sound_partial :
   forall (R : comRingType) (F : numDomainType) (M : round_model R F) (eps : F)
          (Hl : seq R) (n : nat) (s : R),
